@@ -119,6 +119,12 @@ func (ex *Exec) libModel(fn *ssa.Function) (libFn, bool) {
 		if ex.cx.strMode {
 			return ex.stringsModel(name), true
 		}
+		if name == "strings.ToUpper" {
+			return func(fr *Frame, st *State, fn *ssa.Function, args []Val, p token.Pos) (Val, *State) {
+				ex.cx.declFun("str$upper", []string{SInt}, SInt)
+				return Sc{app(SInt, "str$upper", args[0].(Sc).T)}, st
+			}, true
+		}
 	}
 	if strings.HasPrefix(name, "fmt.Sprint") {
 		return func(fr *Frame, st *State, fn *ssa.Function, args []Val, p token.Pos) (Val, *State) {
